@@ -145,7 +145,7 @@ def run(chk):
     # back-end providers (module_antidepends, README "must be unloaded after it"): m in anti[x'] means x' is a back end for m... here
     # anti[b] lists the modules b provides for; each such module depends on b.  Judged by the oracle below (every loaded module
     # constructed / post-initialised / destroyed once, depends edges as before, and for BOTH kinds of edge the dependent's destructor
-    # runs before the provider's) and compared event for event with the extended loader model ModAnti.run2.
+    # runs before the provider's) and compared event for event with the extended loader model (ModAnti.run2 / ModBackend.run3).
     agraphs = []
     for _ in range(120 if quick else 3000):
         n = rng.choice([3, 4, 5])
@@ -167,7 +167,7 @@ def run(chk):
     agraphs.append((3, [[], [0], [1]], [[], [], []], [2], (1,)))
     agraphs.append((4, [[1], [], [], []], [[], [], [], []], [0, 3], (1, 3)))
     ares = pmap(lambda g: run_daemon(impl, g[0], g[1], g[3], anti=g[2], backends=g[4]), agraphs)
-    aspec = lambda n, deps, anti, listing, bks=(): "A;%d;%s;%s;%s" % (n, ";".join(",".join(str(d) for d in deps[i]) for i in range(n)), ";".join(",".join(str(d) for d in anti[i]) for i in range(n)), ",".join(str(x) for x in listing))
+    aspec = lambda n, deps, anti, listing, bks=(): "A;%d;%s;%s;%s;%s" % (n, ";".join(",".join(str(d) for d in deps[i]) for i in range(n)), ";".join(",".join(str(d) for d in anti[i]) for i in range(n)), ",".join(str(x) for x in listing), ",".join(str(b) for b in bks))
     amodel = subprocess.run([str(drv)], input=("\n".join(aspec(*g) for g in agraphs) + "\n").encode(), stdout=subprocess.PIPE, timeout=600).stdout.decode().split("\n")[:-1]
     for (n, deps, anti, listing, bks), (rc, evs, out), aml in zip(agraphs, ares, amodel + [""] * len(agraphs)):
         if len(chk.violations) >= 4: break
@@ -211,8 +211,8 @@ def run(chk):
                     if x not in bks and x not in kept and not evs.index("DT%d" % x) < evs.index("DT%d" % b):
                         why = why or "backend m%d was destroyed before the ordinary module m%d, which no backend depends on" % (b, x)
         afound = True
-        if why is None and not bks and not ((aml == "ABORT" and rc != 0) or (rc == 0 and aml.split(" ") == evs)):
-            why = "module.c and the Coq loader model with back-end declarations (ModAnti.run2) disagree: implementation (exit %s) %s, model %s" % (rc, " ".join(evs), aml); afound = False
+        if why is None and not ((aml == "ABORT" and rc != 0) or (rc == 0 and aml.split(" ") == evs)):
+            why = "module.c and the Coq loader model with back-end declarations and backends (ModBackend.run3) disagree: implementation (exit %s) %s, model %s" % (rc, " ".join(evs), aml); afound = False
         if why:
             chk.violation("modules with back-end declarations: depends %s, back end for %s, backends of the core %s (listed: %s): %s" % ({("m%d" % i): ["m%d" % d for d in deps[i]] for i in range(n)}, {("m%d" % i): ["m%d" % d for d in anti[i]] for i in range(n) if anti[i]}, ["m%d" % b for b in bks], ["m%d" % x for x in listing], why),
                           "depends: %s\nantidepends: %s\nconfiguration lists: %s\nevent log of the daemon (exit %s): %s\noutput:\n%s" % (deps, anti, listing, rc, " ".join(evs), out), "mod:anti:" + why[:30], found_input=afound)
